@@ -80,7 +80,9 @@ Alphabet ==
 \cup (IF "ps" \in Kinds THEN {OpPs(a, 1) : a \in Lines} ELSE {})
 \cup (IF "bs" \in Kinds THEN {OpBs(a, b, 1, cv) : a \in Lines, b \in Lines, cv \in {"H"}} \ {OpBs(a, a, 1, "H") : a \in Lines} ELSE {})
 \cup (IF "loss" \in Kinds THEN {OpLoss(a, 1) : a \in {1}} ELSE {})
-\cup (IF "grp" \in Kinds THEN {OpGrp(<<OpBs(1, NU, 1, "H"), OpPs(NU, 3)>>)} ELSE {})
+\cup (IF "grp" \in Kinds THEN {OpGrp(<<OpBs(1, NU, 1, "H"), OpPs(NU, 3)>>)}                      \* a group over every line (with a non-adjacent coupler inside)
+                              \cup (IF NU >= 3 THEN {OpGrp(<<OpBs(1, NU - 1, 1, "H"), OpPs(NU - 1, 3)>>)} ELSE {})   \* ... and one that leaves the last line free
+      ELSE {})
 Init == ops = <<>> /\ res = <<<<>>, <<>>>>
 Next == Len(ops) < MaxOps /\ \E o \in Alphabet : ops' = Append(ops, o) /\ res' = <<Compress(ops'), ConvertNonAdj(ops')>>
 Spec == Init /\ [][Next]_vars
